@@ -113,6 +113,20 @@ func RunPipeline(seed int64, tier, driver, outDir string, n int, search bool, co
 		cases = append(cases, Case{Seed: 11, Tag: "window", Ops: []string{"hold", "cli:add:a", "loc:add:b", "wait", "release", "wait"}})
 		cases = append(cases, Case{Seed: 12, Tag: "window", Shallow: true, Ops: []string{"hold", "cli:add:a", "loc:add:b", "wait", "release", "wait"}})
 		cases = append(cases, Case{Seed: 13, Tag: "drift", Ops: []string{"loc:add:a", "wait", "drift", "loc:add:b", "wait"}})
+		// a drifted copy and a mutation made through the network machine: visible when the call returns
+		cases = append(cases, Case{Seed: 14, Tag: "drift-visible", Ops: []string{"loc:add:a", "wait", "drift", "cli:add:b", "cli:add:c", "cli:rem:a", "wait"}})
+		// a source with a past (ticks above 1 at handshake time), shallow clocks
+		cases = append(cases, Case{Seed: 15, Tag: "past", Shallow: true, Pre: []string{"add:a", "rem:a", "add:a", "add:b", "rem:b"}, Ops: []string{"cli:add:c", "wait", "loc:add:b", "wait"}})
+		cases = append(cases, Case{Seed: 16, Tag: "past", Pre: []string{"add:a", "rem:a", "add:a", "add:b", "rem:b"}, Ops: []string{"cli:add:c", "wait", "loc:add:b", "wait"}})
+		cases = append(cases, Case{Seed: 20, Tag: "past-slowpush", Shallow: true, SlowPush: true, Pre: []string{"add:a", "rem:a", "add:a", "add:b", "rem:b"}, Ops: []string{"cli:add:c", "wait"}})
+		cases = append(cases, Case{Seed: 21, Tag: "past-slowpush", SlowPush: true, Pre: []string{"add:a", "rem:a", "add:a", "add:b", "rem:b"}, Ops: []string{"loc:add:b", "cli:add:c", "wait"}})
+		// one transition swaps an active state for another (D removes A): the number of active states
+		// stays, the activity does not
+		cases = append(cases, Case{Seed: 22, Tag: "swap", Shallow: true, Ops: []string{"loc:add:a", "wait", "loc:add:d", "wait"}})
+		cases = append(cases, Case{Seed: 23, Tag: "swap", Ops: []string{"loc:add:a", "wait", "loc:add:d", "wait"}})
+		cases = append(cases, Case{Seed: 17, Tag: "config", Allowed: true, Ops: []string{"loc:add:d", "loc:add:a", "wait", "cli:add:b", "loc:rem:d", "wait"}})
+		cases = append(cases, Case{Seed: 18, Tag: "config", Skipped: true, Ops: []string{"loc:add:d", "loc:add:b", "wait", "cli:add:c", "loc:rem:d", "wait"}})
+		cases = append(cases, Case{Seed: 19, Tag: "config", NoSchema: true, Ops: []string{"loc:add:a", "cli:add:b", "wait", "cli:rem:a", "loc:add:c", "wait"}})
 	}
 	r := rand.New(rand.NewSource(seed))
 	for i := 0; i < n; i++ {
@@ -154,7 +168,7 @@ func RunPipeline(seed int64, tier, driver, outDir string, n int, search bool, co
 		}
 	}
 	failSeen := map[string]bool{}
-	pushes, replies, syncs, reorders, drops := 0, 0, 0, 0, 0
+	pushes, replies, syncs, reorders, drops, climuts := 0, 0, 0, 0, 0, 0
 	for i, run := range runs {
 		c := cases[i]
 		res.Cases++
@@ -164,6 +178,7 @@ func RunPipeline(seed int64, tier, driver, outDir string, n int, search bool, co
 		replies += run.Replies
 		syncs += run.Syncs
 		drops += run.SyncDrops
+		climuts += run.CliMuts
 		reorders += run.Reorders
 		if run.Pushes+run.Replies > 1 {
 			res.DistinctNontrivial++
@@ -216,7 +231,7 @@ func RunPipeline(seed int64, tier, driver, outDir string, n int, search bool, co
 			res.Failures = append(res.Failures, core.FailRec{Prop: "C09", Msg: msg, File: file})
 		}
 	}
-	res.Extra = map[string]any{"pushes": pushes, "replies": replies, "full_syncs": syncs, "sync_answers_dropped": drops, "out_of_order_deliveries": reorders}
+	res.Extra = map[string]any{"pushes": pushes, "replies": replies, "full_syncs": syncs, "sync_answers_dropped": drops, "client_mutations_judged": climuts, "out_of_order_deliveries": reorders}
 	res.WallS = time.Since(t0).Seconds()
 	return res
 }
